@@ -708,6 +708,9 @@ func (c *ctx) c05Plan(dir string) []*c05Job {
 				// one oversized-integer probe per protocol (20 s watchdog): its own child
 				add(&c05Job{Kind: "clone", Spec: name, Victim: vs[0], Sender: sender, Shards: 1, OnlyMalf: "long-4M", Count: 1, Budget: 40, PerOth: -1,
 					after: []int{prep[name]}, label: fmt.Sprintf("%s victim=%s oversized-integer probe", name, vs[0])})
+				// and one zero-padded-integer probe (same value, 256 KiB announced size)
+				add(&c05Job{Kind: "clone", Spec: name, Victim: vs[0], Sender: sender, Shards: 1, OnlyMalf: "pad-*", Count: 1, Budget: 60, PerOth: -1,
+					after: []int{prep[name]}, label: fmt.Sprintf("%s victim=%s zero-padded-integer probe", name, vs[0])})
 			}
 			for s := 0; s < sw; s++ {
 				add(&c05Job{Kind: "clone", Spec: name, Victim: vs[0], Sender: sender, Shard: s, Shards: sw, Budget: swBudget, PerIn: swPer, PerOth: -1, after: []int{prep[name]},
